@@ -310,7 +310,14 @@ impl<F: Write + Seek> MiniAllocator<F> {
         // another regular sector to its chain.
         let new_start_sector =
             if mini_stream_start_sector == consts::END_OF_CHAIN {
-                debug_assert_eq!(mini_stream_len, 0);
+                // A damaged file can have a root entry that claims a length
+                // without naming any sector.
+                if mini_stream_len != 0 {
+                    invalid_data!(
+                        "Mini stream has length {} but no sectors",
+                        mini_stream_len
+                    );
+                }
                 self.directory.begin_chain(SectorInit::Zero)?
             } else {
                 // The mini stream's chain keeps its sectors when the mini
